@@ -22,8 +22,8 @@ def expected_K(name):
 
 
 def check(run):
-    add_rules(run, ['ACC.pair', 'ACC.guard', 'ACC.order', 'ACC.nocapture', 'GATE.form',
-                    'GATE.dom', 'GATE.intrinsic', 'GATE.K'])
+    add_rules(run, ['ACC.pair', 'ACC.guard', 'ACC.order', 'ACC.exit', 'ACC.nocapture', 'GATE.form',
+                    'GATE.dom', 'GATE.intrinsic', 'GATE.K', 'SIB.plain-valid'])
     for cfg in configs(run):
         F = run.facts(cfg)
         ks = [k for k in find_kernels(F) if k.fn.file.endswith('tea-rolling/src/features.rs')]
@@ -34,6 +34,14 @@ def check(run):
             nacc += acc.check_acc(run, m)
             acc.check_gate(run, m, expected_K(k.name))
         run.floor('ACC.pair', 'accumulators in features.rs', nacc, 48)
+        models = {k.name: KernelModel(k) for k in ks}
+        npairs = 0
+        for base in ('sum', 'mean', 'ewm', 'wma', 'std', 'var', 'skew', 'kurt'):
+            pn, vn = 'ts_%s_to' % base, 'ts_v%s_to' % base
+            if pn in models and vn in models:
+                npairs += 1
+                acc.check_plain_valid(run, models[pn], models[vn])
+        run.floor('SIB.plain-valid', 'plain / null-aware kernel pairs', npairs, 8)
     return run.finish(
         'other',
         'Structural necessary conditions for "the window state never drifts": for each of the '
